@@ -209,3 +209,32 @@ func VerifC13_SharedCacheRecombination() {
 	}
 	sym.Assert((two == nil) == (one == nil), "two-stage validation on a warm validator admits exactly what one-shot validation admits")
 }
+
+// VerifC13_ZeroKeyWithChain: a valid vote for bottom (announced key zero;
+// COMMIT or PREPARE for bottom need no justification of the value) that is
+// completed with a non-empty chain is rejected by full validation, exactly as
+// one-shot validation rejects the completed message (its signature is over
+// the zero key).
+func VerifC13_ZeroKeyWithChain() {
+	c := gpbft.VerifNewCommittee()
+	m := gpbft.VerifBuildValid(c)
+	sym.Assume(m.Vote.Value.IsZero())
+	pm, err := (&PartialMessageManager{}).ToPartialGMessage(m)
+	sym.Assert(err == nil && pm.VoteValueKey.IsZero(), "a bottom vote is announced under the zero key")
+	v := gpbft.VerifNewValidator(c, false)
+	ctx := context.Background()
+	pv, err := v.PartiallyValidateMessage(ctx, pm)
+	sym.Assert(err == nil, "the stripped bottom vote passes partial validation")
+	if err != nil {
+		return
+	}
+	sym.Cover("bottom-vote")
+	attached := gpbft.VerifX(2 + sym.Choice("attached-chain", 2))
+	pv.PartialMessage().Vote.Value = attached
+	_, two := v.FullyValidateMessage(ctx, pv)
+	completed := *m
+	completed.Vote.Value = attached
+	_, one := gpbft.VerifNewValidator(c, false).ValidateMessage(ctx, &completed)
+	sym.Assert(one != nil, "one-shot validation rejects a bottom vote with a chain attached")
+	sym.Assert(two != nil, "full validation rejects a chain attached under the zero key")
+}
